@@ -45,6 +45,9 @@ fn props() -> Vec<PropDef> {
         p!("C09", "exploration", c09),
         p!("C10", "fault_enumeration", c10),
         p!("C11", "exploration", c11),
+        p!("C12", "fault_enumeration", c12),
+        p!("C13", "exploration", c13),
+        p!("C14", "exploration", c14),
     ]
 }
 
